@@ -188,6 +188,74 @@ def points(ctx, b, nrand):
     return pts
 
 
+# special parameter points of the transformation / shape functions and kinks of the piecewise parts, as fractions of each
+# variable's declared range (WFG: z_i = y * 2i):  s_decept A-B, A, A+B = 0.349, 0.35, 0.351;  s_multi / s_linear C = A = 0.35;
+# b_flat B, C = 0.75, 0.85;  the floor switch 0.5 of b_param / r_sum and of UF/CF (value 0 of a [-1,1] or [-2,2] variable, x1 = 0.5);
+# period boundaries of s_multi (|y - C| / (2 (floor(C - y) + C)) = 0, 1/2) = 0, 0.35, 1;  thirds (j mod 3 families), quarters
+SPECIAL = [0.0, 0.25, 1.0 / 3.0, 0.349, 0.35, 0.351, 0.5, 2.0 / 3.0, 0.75, 0.85, 1.0]
+
+
+def n_position(cls, p):
+    """how many leading variables are position-related"""
+    if hasattr(p, "k"):
+        return p.k
+    if cls.startswith("DTLZ"):
+        return p.nobjs - 1
+    if cls in ("UF8", "UF9", "UF10", "CF8", "CF9", "CF10"):
+        return 2
+    return 1
+
+
+def special_points(ctx, cls, p, b):
+    """all position variables at fraction pf x all distance variables at fraction qf (+ one-ulp neighbours of the scaled values,
+    + the variant that makes (z - lo)/(hi - lo) reproduce the fraction exactly when a neighbouring float does), single
+    position/distance variables at a special fraction in an otherwise random point, and points on the kink manifolds
+    y_j = 0 of the UF/CF families"""
+    rng = ctx.rng
+    n = len(b)
+    k = max(0, min(n, n_position(cls, p)))
+
+    def scaled(i, fr, mode):
+        lo, hi = b[i]
+        z = lo + fr * (hi - lo)
+        if mode == "up":
+            z = math.nextafter(z, hi)
+        elif mode == "down":
+            z = math.nextafter(z, lo)
+        elif mode == "exact" and hi > lo:
+            for c in (z, math.nextafter(z, hi), math.nextafter(z, lo)):
+                if lo <= c <= hi and (c - lo) / (hi - lo) == fr:
+                    z = c
+                    break
+        return min(hi, max(lo, z))
+    out = []
+    for pf in SPECIAL:
+        for qf in SPECIAL:
+            modes = ("plain", "exact", "up", "down") if (pf == qf or pf in (0.349, 0.35, 0.351) or qf in (0.349, 0.35, 0.351)) else ("plain",)
+            for mode in modes:
+                out.append(("special:%s" % mode, [scaled(i, pf if i < k else qf, mode) for i in range(n)]))
+    for fr in SPECIAL:
+        for mode in ("plain", "exact"):
+            x = [rng.uniform(u, v) for u, v in b]
+            i = rng.randrange(n)
+            x[i] = scaled(i, fr, mode)
+            out.append(("special:single", x))
+    if cls.startswith(("UF", "CF")) and cls not in ("UF11", "UF12", "UF13"):
+        for x1 in (0.0, 0.25, 0.5, 0.75, 1.0):
+            for amp in ("1", "0.8x1", "2x2"):
+                for fn in (math.sin, math.cos):
+                    x = [scaled(i, 0.5, "plain") for i in range(n)]
+                    x[0] = scaled(0, x1, "plain")
+                    a = 1.0 if amp == "1" else (0.8 * x[0] if amp == "0.8x1" else 2.0 * x[1])
+                    for j in range(2, n + 1):
+                        ph = (6.0 if amp != "2x2" else 2.0) * math.pi * x[0] + j * math.pi / n
+                        lo, hi = b[j - 1]
+                        if not (amp == "2x2" and j == 2):
+                            x[j - 1] = min(hi, max(lo, a * fn(ph)))
+                    out.append(("special:kink-manifold", x))
+    return out
+
+
 def front_check(cls, f, x):
     """published front inequality of the property statement; returns None or (description)"""
     if cls == "DTLZ1":
@@ -228,7 +296,7 @@ def check_point(ctx, cls, args, p, x, tag="", record=True):
     except Exception as e:  # noqa: BLE001
         if ref == "undefined":
             return [("undefined", "")]
-        return [("%s.evaluate:raises" % cls, "%s%r.evaluate raised %s: %s at x=%r" % (cls, args, type(e).__name__, e, x))]
+        return [("%s.evaluate:raises:%s" % (cls, type(e).__name__), "%s%r.evaluate raised %s: %s at x=%r" % (cls, args, type(e).__name__, e, x))]
     if len(f) != p.nobjs:
         fails.append(("%s.evaluate:objective-count" % cls, "%d objectives stored, %d declared" % (len(f), p.nobjs)))
     if len(c) != p.nconstrs:
@@ -401,7 +469,7 @@ def run(ctx):
         p = make(cls, args)
         seen_classes.add(cls)
         b = bounds(p)
-        for tag, x in points(ctx, b, nrand):
+        for tag, x in points(ctx, b, nrand) + special_points(ctx, cls, p, b):
             ctx.count()
             fails = check_point(ctx, cls, args, p, x, tag)
             dist[tag] = dist.get(tag, 0) + 1
@@ -409,7 +477,7 @@ def run(ctx):
             if fails and fails[0][0] == "undefined":
                 undefined += 1
                 continue
-            if tag in ("boundary", "random", "corner-random", "corner-alt0", "corner-alt1"):
+            if tag in ("boundary", "random", "corner-random", "corner-alt0", "corner-alt1") or tag.startswith("special"):
                 ctx.mark((cls, args, tuple(x)))
             for k, w in fails:
                 ctx.violation(k, w, replay_eval(cls, args, x))
@@ -460,7 +528,9 @@ def run(ctx):
     ctx.coverage["reference_tolerance_relative"] = TOL
     ctx.coverage["classes_with_independent_reference"] = 41
     ctx.rule = ("for each of the 43 classes and several supported nobjs/nvars: the corners (all-low, all-high, alternating, first-vs-rest), centre, the WFG optimal-distance point, "
-                "random corners, boundary points (coordinates on a bound or one ulp inside), random in-bounds points from ctx.rng; ZDT5 on bit strings; "
+                "random corners, boundary points (coordinates on a bound or one ulp inside), random in-bounds points from ctx.rng; the SPECIAL PARAMETER POINTS of the transformation/shape functions "
+                "(fractions 0, 1/4, 1/3, 0.349, 0.35, 0.351, 1/2, 2/3, 0.75, 0.85, 1 of each variable's range: all position variables at p x all distance variables at q, with one-ulp neighbours and the "
+                "float that reproduces the fraction exactly after normalisation; single variables at a special value; points on the kink manifolds y_j = 0 of the UF/CF families); ZDT5 on bit strings; "
                 "sampler batches seeded from ctx.rng. non-trivial = boundary/random/mixed-corner point (coordinates not all at the same relative position) that the published "
                 "formula is defined on, or a sampler batch; distinct by (class, ctor args, full input)")
     ctx.obligation("oracle:all-43-classes-exercised", "oracle", len(seen_classes) == 43, "exercised %d classes" % len(seen_classes))
